@@ -243,7 +243,11 @@ func (e *env) sender(cs *clientState, rng *rand.Rand, from, stopAfter int) error
 		for i := range frames {
 			wire = wsref.AppendFrame(wire, &frames[i])
 			if rng.Intn(4) == 0 {
-				ping := wsref.Frame{Fin: true, Opcode: wsref.OpPing, Masked: true, Key: key(), Payload: []byte(fmt.Sprintf("p%d.%d", seq, i))}
+				last := 0
+				if i == len(frames)-1 {
+					last = 1
+				}
+				ping := wsref.Frame{Fin: true, Opcode: wsref.OpPing, Masked: true, Key: key(), Payload: []byte(fmt.Sprintf("p%d.%d.%d", seq, i, last))}
 				wire = wsref.AppendFrame(wire, &ping)
 				e.r.Count("pings_interleaved", 1)
 			}
